@@ -59,6 +59,7 @@ ObsInit == [op |-> "", n |-> 0, pos |-> <<>>, k |-> 0,
             shape |-> <<"", -1, <<>>>>,
             ucall |-> FALSE,       \* a client called cancel() on the output
             ufail |-> FALSE,       \* ... and it returned False
+            ucret |-> 0,           \* index of the client's cancel() of the output that returned True (0: none)
             fncalls |-> 0, fnraise |-> 0, fnexc |-> -1]
 
 InCall(st, f) == Has(st.tent, f) /\ st.tent[f][4] = 1
@@ -80,6 +81,7 @@ ObsNext(st0, e) ==
        [] e.ev = "OutShape" -> [st EXCEPT !.shape = <<e.s, e.a, e.xs>>]
        [] e.ev = "CancelCall" /\ e.f = 0 -> [st EXCEPT !.ucall = TRUE]
        [] e.ev = "CancelRet" /\ e.f = 0 /\ e.a = 0 -> [st EXCEPT !.ufail = TRUE]
+       [] e.ev = "CancelRet" /\ e.f = 0 /\ e.a = 1 /\ st0.ucret = 0 -> [st EXCEPT !.ucret = i]
        [] e.ev = "FnCall" -> [st EXCEPT !.fncalls = @ + 1]
        [] e.ev = "FnRaise" -> [st EXCEPT !.fnraise = e.k, !.fnexc = e.b]
        [] OTHER -> st
@@ -87,11 +89,11 @@ ObsNext(st0, e) ==
 \* The clauses only compare positions in the event order, never their values, and a future event is later
 \* than every recorded one: two observable states whose recorded positions are order-isomorphic have the
 \* same future.  The implementation specs use this rank-compressed form of `st` in their VIEW.
-IdxSet(st) == ({st.ccall, st.cret} \cup {st.call[i] : i \in DOMAIN st.call} \cup {st.ret[i] : i \in DOMAIN st.ret}
+IdxSet(st) == ({st.ccall, st.cret, st.ucret} \cup {st.call[i] : i \in DOMAIN st.call} \cup {st.ret[i] : i \in DOMAIN st.ret}
                \cup {st.tent[i][1] : i \in DOMAIN st.tent} \cup {st.carr[i] : i \in DOMAIN st.carr}) \ {0}
 RankOf(st, v) == IF v = 0 THEN 0 ELSE Cardinality({u \in IdxSet(st) : u <= v})
 RankView(st) ==
-  [st EXCEPT !.k = 0, !.ccall = RankOf(st, @), !.cret = RankOf(st, @),
+  [st EXCEPT !.k = 0, !.ccall = RankOf(st, @), !.cret = RankOf(st, @), !.ucret = RankOf(st, @),
              !.call = [i \in DOMAIN @ |-> RankOf(st, @[i])], !.ret = [i \in DOMAIN @ |-> RankOf(st, @[i])],
              !.tent = [i \in DOMAIN @ |-> <<RankOf(st, @[i][1]), @[i][2], @[i][3], @[i][4]>>],
              !.carr = [i \in DOMAIN @ |-> RankOf(st, @[i])]]
@@ -143,7 +145,12 @@ Waived(st) == st.ucall /\ ~st.ufail /\ ObservedOutcome(st) = <<"cancelled", 0>>
 PendingAt(st, d) == {j \in Inputs(st) \ {d} : j \notin Completed(st) \/ CallOf(st, j) > ERet(st, d)}
 LosersCancelledBy(st, d) == \A j \in PendingAt(st, d) : Has(st.carr, j) /\ st.carr[j] < ERet(st, d)
 
-FansOut(st) == \A j \in Inputs(st) : j \in Completed(st) \/ Has(st.carr, j)
+\* every input still pending when the output was cancelled got a cancel() request: an input whose own completion only
+\* began after the client's cancel() of the output had returned True must have received one (completing later by
+\* itself is no excuse); for a cancellation that came from an input, having completed by the end is enough
+FansOut(st) == \A j \in Inputs(st) :
+                  \/ Has(st.carr, j)
+                  \/ (j \in Completed(st) /\ (st.ucret = 0 \/ CallOf(st, j) < st.ucret))
 
 AtEnd(st, e, ops) == e.ev = "End" /\ st.op \in ops /\ st.cret > 0
 
